@@ -2,6 +2,7 @@ package c01
 
 import (
 	"context"
+	"encoding/binary"
 	"encoding/json"
 	"fmt"
 	"math/big"
@@ -239,7 +240,7 @@ func TestPropEpoch(t *testing.T) {
 			return ""
 		}
 		sub := rapid.SampledFrom(subs)
-		advances := 0
+		advances, sets, moved := 0, 0, 0
 		rt.Repeat(map[string]func(*rapid.T){
 			"alloc": func(rt *rapid.T) {
 				s := sub.Draw(rt, "sub")
@@ -271,6 +272,32 @@ func TestPropEpoch(t *testing.T) {
 				m.onFree(s)
 				delete(touched, s)
 			},
+			"setAllocation": func(rt *rapid.T) {
+				// replay of a record from the shared store / a change announced by another node: the address is
+				// already decided ("records that subscriberID holds ip"); callers are loadAllocations and
+				// handleRemoteChange, so the address is whatever a record says - any index, also outside the pool
+				s := sub.Draw(rt, "sub")
+				idx := rapid.IntRange(0, min(9, (1<<uint(bits))+1)).Draw(rt, "idx")
+				ipInt := binary.BigEndian.Uint32(pool.IP.To4()) + uint32(idx)
+				ip := make(net.IP, 4)
+				binary.BigEndian.PutUint32(ip, ipInt)
+				if o, held := m.holder[ip.String()]; held && o != s && rapid.IntRange(0, 3).Draw(rt, "keepConflict") != 0 {
+					s = o // most records for a held address are that holder's own record (re-applied)
+				}
+				err := a.SetAllocation(s, ip)
+				m.logf("setAllocation(%s,%s)=%s", s, ip, okerr(err))
+				sets++
+				if err != nil {
+					return // refused: held by another subscriber on a live lease, or not an allocatable address
+				}
+				v := ip.String()
+				if m.has[s] != v {
+					m.onFree(s) // "Give back a different address the subscriber held before"
+					moved++
+				}
+				m.onAlloc(rt, s, v, inRange, lookup)
+				touched[s] = a.GetCurrentEpoch() // recorded "at the current epoch"
+			},
 			"advanceEpoch": func(rt *rapid.T) {
 				e := a.AdvanceEpoch()
 				advances++
@@ -292,6 +319,12 @@ func TestPropEpoch(t *testing.T) {
 		cls := []string{fmt.Sprintf("grace:%d", grace)}
 		if advances >= 3 {
 			cls = append(cls, "advances>=3")
+		}
+		if sets > 0 {
+			cls = append(cls, "has:setAllocation")
+		}
+		if moved > 0 {
+			cls = append(cls, "has:setAllocation-moved")
 		}
 		m.record(cls...)
 	})
